@@ -19,10 +19,21 @@ impl Contract<Empty> for HostileContract {
         if let Some(f) = v.get("forward") {
             let to = f["to"].as_str().unwrap_or("").to_string();
             let inner = serde_json::to_vec(&f["msg"])?;
+            let mut funds = vec![];
+            if let Some(arr) = f.get("funds").and_then(|x| x.as_array()) {
+                for c in arr {
+                    let denom = c[0].as_str().unwrap_or("").to_string();
+                    let amount = match &c[1] {
+                        Value::String(x) => x.parse::<u128>()?,
+                        other => other.as_u64().unwrap_or(0) as u128,
+                    };
+                    funds.push(cosmwasm_std::Coin { denom, amount: Uint128::new(amount) });
+                }
+            }
             return Ok(Response::new().add_message(CosmosMsg::Wasm(WasmMsg::Execute {
                 contract_addr: to,
                 msg: Binary::from(inner),
-                funds: vec![],
+                funds,
             })));
         }
         if v.get("transfer").is_some() || v.get("transfer_nft").is_some() {
